@@ -7,6 +7,7 @@ import (
 	"fmt"
 	"os"
 	"strconv"
+	"strings"
 	"time"
 
 	"verif/explore"
@@ -28,8 +29,18 @@ func main() {
 	root := fs.String("root", envOr("VERIF_ROOT", "/verif"), "verif root")
 	workers := fs.Int("workers", 0, "parallel workers (0 = NumCPU)")
 	budget := fs.Duration("budget", 0, "internal deadline (0 = tier default)")
+	shard := fs.String("shard", "", "i/n: explore only the i-th of n scenario shards (worker mode)")
+	partial := fs.String("partial", "", "worker mode: write mergeable partial results here instead of evidence")
 	arg := os.Args[2]
-	_ = fs.Parse(os.Args[3:])
+	if cmd == "trace" {
+		os.Args = append(os.Args[:3], os.Args[3:]...)
+	}
+	if cmd == "race" {
+		fs.Int("iters", 150, "iterations per scenario")
+	}
+	if cmd != "trace" {
+		_ = fs.Parse(os.Args[3:])
+	}
 	report.Root = *root
 	if *workers > 0 {
 		explore.Workers = *workers
@@ -60,8 +71,43 @@ func main() {
 			}
 		}
 		run.Deadline = time.Now().Add(d)
-		ch.Run(&props.Ctx{Run: run, Tier: *tier, Seed: seed, Sched: schedOverlay == "1"})
+		ctx := &props.Ctx{Run: run, Tier: *tier, Seed: seed, Sched: schedOverlay == "1"}
+		if *shard != "" {
+			fmt.Sscanf(*shard, "%d/%d", &ctx.Shard, &ctx.Shards)
+		}
+		ch.Run(ctx)
+		if *partial != "" {
+			if err := run.ExportPartial(*partial); err != nil {
+				fmt.Fprintln(os.Stderr, err)
+				os.Exit(3)
+			}
+			os.Exit(0)
+		}
 		os.Exit(run.Finish())
+	case "trace":
+		// verif trace <ID> <scenario> <comma separated choices>: print the schedule's trace and log
+		var choices []int
+		if len(os.Args) > 4 && os.Args[4] != "" {
+			for _, f := range strings.Split(os.Args[4], ",") {
+				n, _ := strconv.Atoi(strings.TrimSpace(f))
+				choices = append(choices, n)
+			}
+		}
+		props.TraceScenario(arg, os.Args[3], choices)
+		return
+	case "race":
+		it := 150
+		if n, err := strconv.Atoi(envOr("VERIF_RACE_ITERS", "")); err == nil {
+			it = n
+		}
+		for i, a := range os.Args {
+			if a == "--iters" && i+1 < len(os.Args) {
+				if n, err := strconv.Atoi(os.Args[i+1]); err == nil {
+					it = n
+				}
+			}
+		}
+		os.Exit(props.RunFree(arg, it, *tier == "thorough"))
 	case "replay":
 		b, err := os.ReadFile(arg)
 		if err != nil {
